@@ -171,7 +171,7 @@ def replay(ctx, path):
     rc, out = C.sh([hb, "one", obj["kind"]] + list(obj["args"]), env=ctx.env())
     f = out.rstrip("\n").split("\t")
     print("%s %s" % (obj.get("function"), dict(zip(obj.get("arg_names", []), obj["args"]))))
-    print("expected: %s" % obj.get("expected"))
+    print("oracle: %s" % obj.get("expected"))
     print("got: %s" % " ".join(f[:3]))
     bad = len(f) < 4 or f[3] == "fail"
     if not bad and f[3] == "none":
